@@ -11,6 +11,97 @@ sys.path.insert(0, os.path.dirname(os.path.abspath(__file__)))
 from vlib import core
 
 
+# files every property's behaviour also depends on, besides its own anchors
+COMMON = {"C%02d" % i: ["src/instrs.rs", "src/tape.rs"] for i in range(1, 17)}
+
+
+def changed_sources(pid):
+    """anchor files of the property whose working-tree content differs from the pinned content"""
+    import hashlib, json
+    pins_p = os.path.join(core.VERIF, "source_pins.json")
+    if not os.path.exists(pins_p):
+        return []
+    pins = json.load(open(pins_p))["files"]
+    files = []
+    for l in open(os.path.join(core.VERIF, "properties.jsonl")):
+        pr = json.loads(l)
+        if pr["id"] == pid:
+            files = list(pr["anchors"]["files"])
+    files += [f for f in COMMON.get(pid, []) if f not in files]
+    if any(f.startswith("src/") for f in files) and "src/wrappers.rs" not in files:
+        files.append("src/wrappers.rs")
+    out = []
+    for f in files:
+        path = os.path.join(core.REPO, f)
+        try:
+            h = hashlib.sha256(open(path, "rb").read()).hexdigest()
+        except OSError:
+            h = "<missing>"
+        if f in pins and pins[f] != h:
+            out.append(f)
+    return out
+
+
+def extra_rounds(rep, mod, pid, tier, seed):
+    """The hand-written model was validated against the pinned sources.  When a source file the
+    property is anchored in has changed and the ordinary run found nothing, repeat the run with
+    further seeds (other random programs, other slices of the exhaustive spaces) for a bounded
+    time: more search where a change was made, the same verdict rules.  Never runs on the pinned
+    tree."""
+    import time
+    ch = changed_sources(pid)
+    rep.cov["sources_changed_since_model_was_pinned"] = ch
+    if not ch or rep.violations or os.environ.get("VERIF_NO_EXTRA"):
+        return
+    cap = float(os.environ.get("VERIF_EXTRA_S", "360" if tier == "thorough" else "200"))
+    first = max(time.time() - rep.t0, 1.0)
+    t0 = time.time()
+    rounds = 0
+    while not rep.violations and rounds < 12 and (time.time() - t0) + first * 1.1 < cap:
+        rounds += 1
+        core.log(f"[{pid}] sources changed ({', '.join(ch)}): extra round {rounds}")
+        mod.check(rep, tier, seed + 7919 * rounds, None)
+    rep.cov["extra_rounds_because_sources_changed"] = rounds
+
+
+def generic_replay(pid, path):
+    """re-run the recorded cases of a replay file on the real code (harness, rebuilt from /repo) and
+    on the model; exit 1 (with the VIOLATION line) when a recorded failing answer is reproduced"""
+    import json
+    rp = json.load(open(path))
+    lines = []
+    for v in rp.get("violations", []):
+        for k in ("case", "replay_line"):
+            c = v.get(k)
+            if isinstance(c, str) and c and c not in lines and "\n" not in c:
+                lines.append(c)
+    if not lines:
+        print("replay file names no re-runnable case (a broken theorem or correspondence only):")
+        for v in rp.get("violations", [])[:5]:
+            print("  ", json.dumps(v)[:400])
+        print(f"VIOLATION property={pid} replay={path} no-failing-input-found")
+        return 1
+    impl = core.run_harness(lines)
+    try:
+        model = core.run_driver(lines)
+    except Exception as e:                       # driver ops missing for harness-only lines
+        model = ["<driver: %s>" % str(e)[:80]] * len(lines)
+    reproduced = 0
+    recorded = {v.get("case"): v for v in rp.get("violations", [])}
+    for l, i, m in zip(lines, impl, model):
+        v = recorded.get(l, {})
+        same = ("impl" in v and str(v["impl"])[:2000] == i[:2000])
+        reproduced += same
+        print(f"case:  {l[:300]}\n  real code now: {i[:300]}\n  model now:     {m[:300]}\n  recorded:      {str(v.get('impl'))[:300]}"
+              f"\n  judged by:     {str(v.get('l0') or v.get('replay') or v.get('validator') or v.get('why') or v.get('fields'))[:300]}"
+              f"\n  -> {'REPRODUCED' if same else ('differs from model' if i != m else 'not reproduced')}")
+    if reproduced or any(i != m for i, m in zip(impl, model)):
+        print(f"VIOLATION property={pid} replay={path}")
+        return 1
+    print(f"OK property={pid} replay: none of {len(lines)} recorded case(s) reproduced")
+    return 0
+
+
 def main():
     ap = argparse.ArgumentParser()
     ap.add_argument("prop")
@@ -32,7 +123,10 @@ def main():
             if not ok:
                 rep.violation("lean-build-failed", {"output": msg}, found_input=False)
                 return rep.finish()
+        if a.replay and not getattr(mod, "OWN_REPLAY", False):
+            return generic_replay(pid, a.replay)
         mod.check(rep, a.tier, seed, a.replay)
+        extra_rounds(rep, mod, pid, a.tier, seed)
     except Exception:
         traceback.print_exc()
         rep.violation("check-crashed", {"trace": traceback.format_exc()[-3000:]}, found_input=False)
